@@ -13,7 +13,7 @@ single / multiple inheritance, HTTP exceptions, `PredicateMismatch` all included
 any prior attribute dictionary.  Hypotheses: `Coherent` (C03's: statements of one slot with the same predicates agree on
 order / accept / protectedness) and `World.ok` (`HTTPNotFound` and `PredicateMismatch` instances are `HTTPNotFound`s,
 `HTTPForbidden` is not).  Outside the model (see notes/C14.md): view bodies that raise `PredicateMismatch` instances
-(finding F-C14c) and the lookup cache (finding F-C14b).
+(finding F-C14c); the lookup cache is C15's subject (its key once omitted the classifier: F-C14b, repaired by fc67717).
 -/
 namespace Pyr.ExcView
 open Pyr.ViewLookup
